@@ -42,6 +42,9 @@ type RedisBackend struct {
 	Sched   bool
 	first   kvs.Storage
 	lastNew kvs.Storage
+	// OnNewClient is called with every client the backend creates (a harness may install go-redis hooks through
+	// an accessor of the package under test)
+	OnNewClient func(st kvs.Storage)
 }
 
 func NewRedis(sched bool) *RedisBackend {
@@ -85,6 +88,9 @@ func (b *RedisBackend) NewClient() kvs.Storage {
 		}
 	}
 	st := kredis.New(opts)
+	if b.OnNewClient != nil {
+		b.OnNewClient(st)
+	}
 	b.lastNew = st
 	if c, ok := st.(interface{ Close() error }); ok {
 		b.clients = append(b.clients, c)
